@@ -2308,6 +2308,17 @@ impl<'a, T: Kind> Run<'a, T> {
 			self.reopen();
 			self.observe(true, true);
 		}
+		// a boundary whose last leaf is a lone leaf that is spent for good when the cutoff falls on it:
+		// the block that makes the leaf count odd spends its own last leaf
+		{
+			let nl = pmmr::n_leaves(self.bk.size);
+			let add = if nl % 2 == 0 { 1 } else { 2 };
+			self.plain_unit(add, &[leaf(nl + add - 1)], true);
+			let head = self.bk.chain.len() - 1;
+			self.compact_at(head);
+			self.observe(true, true);
+			self.observe_prune_file();
+		}
 		// the neighbouring pair: rolls the parent up into the height-2 root
 		let base = (a / 4) * 4;
 		let nl = pmmr::n_leaves(self.bk.size);
@@ -2414,7 +2425,15 @@ impl<'a, T: Kind> Run<'a, T> {
 			self.st.snapshots_after_compaction += 1;
 		}
 		let mut header = grin_core::core::BlockHeader::default();
-		header.height = self.st.snapshots + 1000 * self.st.histories;
+		// the header hash covers the cycle of the proof of work only: a header of its own per snapshot
+		header.height = self.st.snapshots;
+		header.pow.nonce = self.st.snapshots;
+		let uniq = self.st.snapshots + 100_000 * self.st.histories;
+		if header.pow.proof.nonces.is_empty() {
+			header.pow.proof.nonces.push(uniq);
+		} else {
+			header.pow.proof.nonces[0] = uniq;
+		}
 		let tag = hex(&header.hash().as_bytes()[..6]);
 		if !with_file {
 			self.st.snapshot_missing_file += 1;
@@ -3213,7 +3232,11 @@ fn rough<T: Kind>(out: &mut Out, rng: &mut Rng, histories: u64, steps: u64) {
 }
 
 fn main() {
-	if std::env::var("VERIF_STORE_LOUD").is_err() { quiet_panics(); }
+	if std::env::var("VERIF_STORE_LOUD").is_err() {
+		quiet_panics();
+	}
+	// `BlockHeader::default()` (the header a leaf-set snapshot is tagged with) asks for the chain type
+	grin_core::global::set_local_chain_type(grin_core::global::ChainTypes::AutomatedTesting);
 	let args: Vec<String> = std::env::args().collect();
 	let mode = args.get(1).map(|s| s.as_str()).unwrap_or("all");
 	let mut rng = Rng::new(seed_from_env());
